@@ -88,6 +88,7 @@ TREES = {
     # UDF records Latin-1 names in 8 bits and everything else in 16 bits: mix them along one path
     'unicode-nested': [('中', 'dir', None), ('中/ä.txt', 'file', D(12)), ('中/plain.txt', 'file', D(13)), ('ä', 'dir', None), ('ä/中.txt', 'file', D(14)),
                        ('ä/sub', 'dir', None), ('ä/sub/中', 'dir', None), ('ä/sub/中/x.txt', 'file', D(15))],
+    'very-long-names': [('n' * 180 + '.txt', 'file', D(16)), ('m' * 186, 'file', D(17)), ('中' * 62, 'file', D(18)), ('d' * 185, 'dir', None), ('d' * 185 + '/f', 'file', D(19))],
     'boot-sub': [('isolinux', 'dir', None), ('isolinux/isolinux.bin', 'file', D(2048)), ('data.txt', 'file', D(3)), ('other', 'dir', None), ('other/x.txt', 'file', D(4))],
     'hide': [('keep.txt', 'file', D(1)), ('secret.txt', 'file', D(2)), ('skip.bak', 'file', D(3))],
 }
@@ -296,6 +297,8 @@ def tasks(tier):
         for tn in TREES:
             if tn in ('boot', 'boot-sub', 'hide'):
                 continue
+            if tn == 'very-long-names' and '-J' in opts:
+                continue      # Joliet cannot hold names of more than 64 characters: the tool refuses such a tree with -J
             if tier == 'quick' and tn in ('many', 'deep', 'empty-dirs') and (opts.count('-J') + opts.count('-udf') != 2 or '-r' not in opts):
                 continue
             cases.append((tn, opts, ''))
